@@ -1030,6 +1030,20 @@ func checkDiscovery(p *Prog, r *Result, rule, tmpRule string) {
 			}
 		}
 	}
+	// a schema may have an empty extension: its object files are bare uuids (plus the compressed suffix)
+	for _, name := range []string{U} {
+		got, why := evalSplit(name)
+		construct := "entry <uuid> (empty extension) yields the uuid"
+		switch {
+		case why != "":
+			r.Report(rule, FuncName(split), construct, Undecided, why, p.Pos(split.Pos()), nil, true)
+		case got == U:
+			r.Report(rule, FuncName(split), construct, Discharged, "", p.Pos(split.Pos()), nil, true)
+		default:
+			r.Report(rule, FuncName(split), construct, Violated, fmt.Sprintf("the object file %q of a collection whose extension is empty is split into uuid part %q", name, got), p.Pos(split.Pos()), nil, true)
+		}
+	}
+	checkListingKeepsAllExtensions(p, r, rule)
 	// entries that are not object files
 	for _, name := range []string{"schema.json", "README", ".tmp-" + U + ".json"} {
 		got, why := evalSplit(name)
